@@ -365,6 +365,19 @@ def run_pool_ops(case):
     courier_utils.worker_registry().register(a, _time.time())
   pool = courier_worker.WorkerPool(addrs, call_timeout=5)
   what = f'{case}'
+  stop_watch = threading.Event()
+  if case.get('die') is not None:
+    # one worker dies on the first task it is given and is pronounced dead (unregistered) - after the pool acquired it
+    victim = addrs[case['die'] % len(addrs)]
+    courier.PLANS[(victim, 'maybe_make')] = ['die']
+
+    def watcher():
+      while not stop_watch.is_set():
+        if any(c[0] == victim and c[2] == 'die' for c in list(courier.CALLS)):
+          courier_utils.worker_registry().unregister(victim)
+          return
+        _time.sleep(0.001)
+    threading.Thread(target=watcher, daemon=True).start()
   tasks = []
   for t in case['tasks']:
     if t[0] == 'ok':
@@ -387,7 +400,9 @@ def run_pool_ops(case):
   th.start()
   th.join(60)
   hung = th.is_alive()
+  stop_watch.set()
   acquired = [w.address for w in pool.acquired_workers]
+  died = case.get('die') is not None and any(c[2] == 'die' for c in courier.CALLS)
   for s in servers:
     s.stop()
   for w in pool.all_workers:
@@ -396,21 +411,29 @@ def run_pool_ops(case):
   fails = any(t[0] == 'fail' for t in (case['tasks'][:2] if case['op'] == 'run' else case['tasks'][:1] if case['op'] == 'call_and_wait' else case['tasks']))
   if fails:
     check('error' in out, 'task-error-swallowed', f'{what}: a task raises but the operation returned {out.get("result")!r}')
+  elif died:
+    # the death may surface as an error (call_and_wait / run on the dead worker, or no worker left) or be retried elsewhere;
+    # either way a delivered as_completed result list is exactly-once
+    if 'error' not in out and case['op'] == 'as_completed':
+      want = sorted(t[1] + 1 for t in case['tasks'])
+      check(sorted(out['result']) == want, 'results-not-exactly-once', f'{what}: got {sorted(out["result"])}, want {want}')
   else:
     check('error' not in out, 'unexpected-error', lambda: f'{what}: {out["error"]!r}')
     if case['op'] == 'as_completed':
       want = sorted(t[1] + 1 for t in case['tasks'])
       check(sorted(out['result']) == want, 'results-not-exactly-once', f'{what}: got {sorted(out["result"])}, want {want}')
   check(not acquired, 'workers-left-acquired', f'{what}: after the operation {"raised" if "error" in out else "returned"} the pool still holds {acquired}')
-  return {'nontrivial': fails or len(case['tasks']) >= 2, 'classes': [f'op-{case["op"]}', 'failing-task' if fails else 'ok-tasks']}
+  return {'nontrivial': fails or died or len(case['tasks']) >= 2,
+          'classes': [f'op-{case["op"]}', 'failing-task' if fails else 'ok-tasks'] + (['worker-died-while-acquired'] if died else [])}
 
 
 def strat_pool_ops(tier):
   task = st.one_of(st.tuples(st.just('ok'), st.integers(0, 50)).map(list), st.tuples(st.just('ok'), st.integers(0, 50)).map(list),
                    st.tuples(st.just('fail'), st.integers(0, 50)).map(list))
-  return st.builds(lambda op, w, t, r: {'op': op, 'workers': w, 'tasks': t, 'rseed': r},
+  return st.builds(lambda op, w, t, r, d: {'op': op, 'workers': w, 'tasks': t, 'rseed': r, 'die': d},
                    st.sampled_from(['run', 'call_and_wait', 'as_completed', 'as_completed']),
-                   st.integers(1, 3), st.lists(task, min_size=1, max_size=5), st.integers(0, 10**6))
+                   st.integers(1, 3), st.lists(task, min_size=1, max_size=5), st.integers(0, 10**6),
+                   st.sampled_from([None, None, 0, 1, 2]))
 
 
 SCENARIOS = [
